@@ -78,6 +78,13 @@ func scopeClasses(c *x509.Certificate) map[string]string {
 			email = true
 		}
 	}
+	// "... the inclusion of a rfc822Name SAN or an otherName of type id-on-SmtpUTF8Mailbox": a name entry of
+	// that type (with a value) is a mailbox indication whatever its value decodes to
+	for _, on := range c.OtherNames {
+		if on.TypeID.String() == "1.3.6.1.5.5.7.8.9" && len(on.Value.Bytes) > 0 {
+			email = true
+		}
+	}
 	out := map[string]string{"CABF_BR": "unclear", "CABF_SMIME_BR": "unclear", "CABF_CS_BR": "unclear"}
 	switch {
 	case has(x509.ExtKeyUsageServerAuth):
